@@ -229,6 +229,9 @@ structure Query where
   groupBy : Option (List By)
   orderBy : List (By × Bool)
   limit : Lim
+  /-- every column reference of the statement is written `alias.column` (the
+      statements over a join); select aliases stay unqualified -/
+  qualified : Bool := false
   deriving DecidableEq, Repr
 
 /-- column types of the table: names `0 … schema.length-1` are its columns -/
